@@ -120,7 +120,48 @@ def replay_even(case) -> dict:
     return dict(failures=fails, classes={"picks": int(len(got))})
 
 
+def replay_lobes(case) -> dict:
+    """A template with two lobes: its correlation landscape has side maxima above min_score within the exclusion distance of the main
+    peak.  They are suppressed by the main peak - also when a chunk boundary runs between them (the exclusion distance is larger
+    than the margin by which a chunk's landscape extends beyond its own region unless the overlap accounts for it)."""
+    import dask.array as da
+    from scipy import ndimage as ndi
+    from acryo import pick
+
+    shape = tuple(case["extents"])
+    chunks = tuple(tuple(c) for c in case["chunks"])
+    scale = case["scale"]
+    t = np.zeros((9, 9, 9), np.float32)
+    t[4, 4, 2] = t[4, 4, 6] = 1
+    t = ndi.gaussian_filter(t, 0.8)
+    centres = [(9, 14, 19), (27, 30, 25), (20, 12, 36)]
+    img = (np.random.default_rng(0).normal(0, 0.001, shape)).astype(np.float32)
+    for c in centres:
+        img[c[0] - 4 : c[0] + 5, c[1] - 4 : c[1] + 5, c[2] - 4 : c[2] + 5] += t
+    desc = dict(picker="ZNCC", layout="two_lobes", scale=scale, chunks=[list(c) for c in chunks], as_numpy=case["as_numpy"],
+                case_key=f"two_lobes|{scale}|{[list(c) for c in chunks]}")
+    arr = img if case["as_numpy"] else da.from_array(img, chunks=chunks)
+    mol, exc = engine.api_try(pick.ZNCCTemplateMatcher(t).pick_molecules, arr, scale, min_distance=6.0 * scale, min_score=0.3)
+    if exc is not None:
+        return dict(failures=[dict(desc, clause="Raised", error=f"{exc.kind}: {exc.msg[:80]} @ {exc.where}")])
+    got = np.asarray(mol.pos, dtype=np.float64) / scale
+    fails = []
+    used = set()
+    for c in centres:
+        d = np.linalg.norm(got - np.array(c, dtype=float), axis=1) if len(got) else np.array([])
+        hit = [int(j) for j in np.flatnonzero(d <= 0.6)]
+        if len(hit) != 1:
+            fails.append(dict(desc, clause="ParticleFound" if not hit else "NoDuplicates", particle=list(c), count=len(hit)))
+        used.update(hit)
+    extra = [j for j in range(len(got)) if j not in used]
+    if extra:
+        fails.append(dict(desc, clause="NoMisplacedPicks", count=len(extra), first=[round(float(x), 2) for x in got[extra[0]]]))
+    return dict(failures=fails, classes={"picks": int(len(got))})
+
+
 def replay(case) -> dict:
+    if case.get("layout") == "two_lobes":
+        return replay_lobes(case)
     if case.get("layout") == "even_template":
         return replay_even(case)
     import dask.array as da
@@ -159,6 +200,8 @@ def replay(case) -> dict:
         kw = {}
     if case["dtype"] == "uint8":
         img = np.round(img / img.max() * 200).astype(np.uint8)
+    elif case["dtype"] != "float32":
+        img = img.astype(case["dtype"])
     arr = img if case["as_numpy"] else da.from_array(img, chunks=chunks)
     mol, exc = engine.api_try(picker.pick_molecules, arr, scale, **kw)
     if exc is not None:
@@ -205,9 +248,13 @@ def run(rep: engine.Report, tier: str, seed: int):
             for f in fams:
                 cases.append(dict(extents=f["extents"], chunks=f["chunks"], picker=picker, scale=scale, as_numpy=False, dtype="float32"))
         cases.append(dict(extents=fams[0]["extents"], chunks=fams[3]["chunks"], picker=picker, scale=1.0, as_numpy=False, dtype="uint8"))
+        # double-precision images, as numpy and in chunks of which some hold a particle and some do not
+        cases.append(dict(extents=fams[0]["extents"], chunks=[[n] for n in fams[0]["extents"]], picker=picker, scale=1.0, as_numpy=True, dtype="float64"))
+        for f in (fams[3], fams[5]):
+            cases.append(dict(extents=f["extents"], chunks=f["chunks"], picker=picker, scale=0.5, as_numpy=False, dtype="float64"))
         if picker != "DoG":   # the DoG response does not resolve such close pairs to within a voxel
             corner = fams[0]["corner"]["log25" if picker == "LoG" else "zncc60"]
-            for sc in (1.0, 0.5):
+            for sc in (1.0, 0.5, 2.0):
                 cases.append(dict(extents=fams[0]["extents"], chunks=[[n] for n in fams[0]["extents"]], picker=picker, scale=sc, as_numpy=True, dtype="float32", layout="diagonal", corner=corner))
                 for f in (fams[1], fams[3], fams[-3]):
                     cases.append(dict(extents=f["extents"], chunks=f["chunks"], picker=picker, scale=sc, as_numpy=False, dtype="float32", layout="diagonal", corner=corner))
@@ -219,6 +266,10 @@ def run(rep: engine.Report, tier: str, seed: int):
             for f in evens:
                 if sc == 1.0 or tier != "quick" or len(f["chunks"][0]) + len(f["chunks"][1]) + len(f["chunks"][2]) > 4:
                     cases.append(dict(layout="even_template", extents=f["extents"], chunks=f["chunks"], plants2=f["plants2"], scale=sc, rotations=use_rot, as_numpy=False))
+    for sc in (1.0, 0.5):
+        cases.append(dict(layout="two_lobes", extents=fams[0]["extents"], chunks=[[n] for n in fams[0]["extents"]], scale=sc, as_numpy=True))
+        for f in fams + evens[:8]:
+            cases.append(dict(layout="two_lobes", extents=f["extents"], chunks=f["chunks"], scale=sc, as_numpy=False))
     results = engine.parallel_replay("harness.props.c20", "replay", cases, sync_dask=True)
     engine.collect(rep, cases, results, key=lambda c: c)
     rep.exhaustive = True
@@ -233,7 +284,8 @@ def run(rep: engine.Report, tier: str, seed: int):
         f"depth, which dask merges), scales, uint8 input; plus a diagonal layout (pairs at the corner offset of the cube enclosing "
         f"the exclusion ball, from TLC) for LoG and the template matcher, a slab thinner than the overlap depth, and an EVEN-sized template "
         f"(picks on half pixels; {len(evens)} chunkings with a boundary 1.5 / 0.5 px before and after a particle centre on each axis, with and "
-        f"without rotation search; Picker.tla: half-open ownership of half pixels, landscape edge outside the keep-window); {len(cases)} cases"
+        f"without rotation search; Picker.tla: half-open ownership of half pixels, landscape edge outside the keep-window), a two-lobed template whose side maxima "
+        f"lie within the exclusion distance of the main peak (suppressed also across chunk boundaries), float64 images; {len(cases)} cases"
     )
 
 
